@@ -91,6 +91,61 @@ func c08(r *Run) {
 		}
 	}
 
+	// R6: a task's readers / blocked sets cover all keys the task owns: an entry leaves them only when that reader
+	// (resp. the task itself) completes. No clear, delete or reassignment anywhere else (e.g. when one key is handed over).
+	r.rule("C08.R6", "K3", "task.readers / task.blocked shrink only in the completion routine (a reader leaving, the task finishing)", 2)
+	{
+		n := 0
+		// the completion routine: the literal runTask defers (or a new function it defers), and the new helpers it calls
+		completion := map[*ssa.Function]bool{}
+		var addCompletion func(f *ssa.Function, d int)
+		addCompletion = func(f *ssa.Function, d int) {
+			if f == nil || completion[f] || d > maxLiftDepth {
+				return
+			}
+			completion[f] = true
+			eachInstr(f, func(i ssa.Instruction) {
+				if ci, ok := i.(ssa.CallInstruction); ok {
+					addCompletion(transparentCallee(ci), d+1)
+				}
+			})
+		}
+		addCompletion(w.Fn(E+"runTask$1"), 0)
+		if rtk := w.Fn(E + "runTask"); rtk != nil {
+			eachInstr(rtk, func(i ssa.Instruction) {
+				if d, ok := i.(*ssa.Defer); ok {
+					if c := d.Call.StaticCallee(); c != nil && c.Blocks != nil && !knownFuncs[fnName(c)] {
+						addCompletion(c, 0)
+					}
+				}
+			})
+		}
+		for _, fn := range w.FnsInPkg(pkg) {
+			isCompletion := completion[fn]
+			for _, e := range effectsOf(fn) {
+				s := e.Str
+				shrink := ""
+				switch {
+				case strings.HasPrefix(s, "call builtin.clear(") && (strings.Contains(s, ".readers)") || strings.Contains(s, ".blocked)")):
+					shrink = "cleared"
+				case strings.HasPrefix(s, "call builtin.delete(") && (strings.Contains(s, ".readers, ") || strings.Contains(s, ".blocked, ")):
+					shrink = "entry deleted"
+				case (strings.HasPrefix(s, "store ") && (strings.Contains(s, ".readers = ") || strings.Contains(s, ".blocked = "))) && !strings.HasPrefix(s, "store alloc(complit)."):
+					shrink = "reassigned"
+				}
+				if shrink == "" {
+					continue
+				}
+				n++
+				r.check(isCompletion, "C08.R6", short(fnName(fn))+":"+shrink, r.at(w, e.Ins), s,
+					"a task's readers/blocked set is "+shrink+" outside the completion routine ("+s+"): the set spans every key the task owns, so readers of its other keys (or tasks blocked on it) are forgotten and a later conflicting task is scheduled without waiting for them")
+			}
+		}
+		if n < 2 {
+			r.missing("C08.R6", "completion:shrinks", "the completion routine's removal from readers and release of blocked were not found")
+		}
+	}
+
 	r.rule("C08.R3", "K6", "dependency counter protocol", 5)
 	// the completion routine: the literal deferred by runTask on the reference tree; if a refactoring turned it into
 	// a named function (one that did not exist on the reference tree), that function, with its parameters rendered as
